@@ -2,7 +2,7 @@
 From Coq Require Import ZArith QArith List Bool Lia.
 From Knut Require Import Model.Str Model.Dec Model.Date Model.Account Model.Ledger Model.Journal
      Model.Table Model.Report Model.JPrinter Model.ImpCommonA Model.ImpCommonB
-     Model.Imp.Revolut2
+     Model.Imp.Revolut2 Model.Imp.Revolut
      Spec.ImpSpecA Spec.ImpSpecB Proofs.DecProofs Proofs.DecValue Proofs.PairProofs Proofs.StrProofs
      Proofs.ImpProofsA.
 Import ListNotations.
@@ -269,3 +269,132 @@ Proof.
     + split; [intros []|discriminate].
 Qed.
 
+
+(* ---------------------------------------------------------------- revolut *)
+
+Lemma andb6b a b c d e f : a && b && c && d && e && f = true ->
+  a = true /\ b = true /\ c = true /\ d = true /\ e = true /\ f = true.
+Proof. destruct a, b, c, d, e, f; cbn; intuition congruence. Qed.
+
+Lemma rv_combi_ok f c q : rv_other f = Some (c, q) -> rv_combi f = MOk (c, q).
+Proof.
+  unfold rv_other, rv_combi, rv_decimal, rv_dec. destruct (ufields f) as [|x [|y [|z l]]]; try discriminate.
+  destruct (valid_name x); [|discriminate]. cbn [negb].
+  destruct (new_from_string (remove_byte 39 y)); [|discriminate]. intros H. injection H. intros; subst. reflexivity.
+Qed.
+
+Definition rv_txn (acct : account) (cur : commodity) (r : list str) : txn :=
+  mkTxn (rv_date r) (build_desc (rv_text r)) (legs_postings (rv_legs acct cur r)) None.
+
+Definition rv_step (acct : account) (cur : commodity) (last : Z) (r : list str) : list directive :=
+  (if Z.eqb (rv_date r) last then [] else [assertion_of acct (mkBalFact (rv_date r) cur (rv_balance r))]) ++
+  [DTxn (rv_txn acct cur r)].
+
+Lemma rv_row acct cur last r : rv_wf_row r = true ->
+  rv_booking acct cur last r = MOk (rv_step acct cur last r, rv_date r).
+Proof.
+  intros Hwf. unfold rv_wf_row in Hwf. apply andb6b in Hwf. destruct Hwf as (Hl & Hd & Hb & Hx & Ha & Hk).
+  unfold len_is in Hl. do 9 (destruct r as [|? r]; [discriminate Hl|]). destruct r; [|discriminate Hl].
+  rename s into f0, s0 into f1, s1 into f2, s2 into f3, s3 into f4, s4 into f5, s5 into f6, s6 into f7, s7 into f8.
+  unfold field in Hd, Hb, Hx, Ha. cbn [nth] in Hd, Hb, Hx, Ha.
+  apply is_some_inv in Hd. destruct Hd as [d Hd]. apply is_some_inv in Hb. destruct Hb as [b Hb].
+  apply is_some_inv in Ha. destruct Ha as [a Ha].
+  unfold rv_step, rv_txn, rv_date, rv_balance, rv_text, field. cbn [nth]. rewrite Hd, Hb. cbn [date_or0 dec_or0].
+  unfold rv_booking, len_is. cbn [length Nat.eqb negb]. unfold fld_p, fld. cbn [nth_error]. rewrite Hd.
+  unfold rv_decimal. unfold rv_dec in Hb, Ha. rewrite Hb.
+  assert (Hq : (if negb (is_empty f2) && is_empty f3
+                then match new_from_string (remove_byte 39 f2) with Some q => MOk (mul_sign true q) | None => MErr e_amount end
+                else if is_empty f2 && negb (is_empty f3)
+                then match new_from_string (remove_byte 39 f3) with Some q => MOk (mul_sign false q) | None => MErr e_amount end
+                else MErr e_amount) = MOk (rv_signed [f0; f1; f2; f3; f4; f5; f6; f7; f8])).
+  { unfold rv_signed, rv_dec, field. cbn [nth].
+    destruct (xorb_cases _ _ Hx) as [[H2 H3]|[H2 H3]]; rewrite H2, H3 in *; cbn [negb andb]; rewrite Ha; cbn [dec_or0].
+    - rewrite mul_sign_pos. reflexivity.
+    - rewrite mul_sign_neg. reflexivity. }
+  assert (Hrest : forall asserts,
+    mbind (MOk (rv_signed [f0; f1; f2; f3; f4; f5; f6; f7; f8])) (fun q =>
+      let val := valuation_account_for acct in
+      if rv_is_sell f1 then
+        match Some f4 with Some s => mbind (rv_combi s) (fun oc =>
+          MOk (asserts ++ [legs_txn d (rv_desc f1 f7 f8) [mkLeg val acct cur q; mkLeg val acct (fst oc) (snd oc)] None], d)) | None => MPanic e_index end
+      else if rv_is_buy f1 then
+        match Some f5 with Some s => mbind (rv_combi s) (fun oc =>
+          MOk (asserts ++ [legs_txn d (rv_desc f1 f7 f8) [mkLeg val acct cur q; mkLeg val acct (fst oc) (neg (snd oc))] None], d)) | None => MPanic e_index end
+      else MOk (asserts ++ [legs_txn d (rv_desc f1 f7 f8) [mkLeg tbd_account acct cur q] None], d)) =
+    MOk (asserts ++ [DTxn (mkTxn d (build_desc (rv_desc f1 f7 f8))
+                           (legs_postings (rv_legs acct cur [f0; f1; f2; f3; f4; f5; f6; f7; f8])) None)], d)).
+  { intros asserts. cbn [mbind]. unfold rv_legs, rv_exchange. unfold rv_exchange in Hk.
+    unfold rv_kind in *. unfold field in *. cbn [nth] in *.
+    change (rx_anywhere (rx_two_caps_here [83;111;108;100;32]%Z [32;116;111;32]%Z) f1) with (rv_is_sell f1) in *.
+    change (rx_anywhere (rx_two_caps_here [66;111;117;103;104;116;32]%Z [32;102;114;111;109;32]%Z) f1) with (rv_is_buy f1) in *.
+    destruct (rv_is_sell f1).
+    - apply is_some_inv in Hk. destruct Hk as [[c q] Hk]. rewrite Hk. rewrite (rv_combi_ok _ _ _ Hk). reflexivity.
+    - destruct (rv_is_buy f1).
+      + apply is_some_inv in Hk. destruct Hk as [[c q] Hk].
+        destruct (rv_other f5) as [[c' q']|] eqn:Ho; [|discriminate Hk]. injection Hk. intros; subst.
+        rewrite (rv_combi_ok _ _ _ Ho). reflexivity.
+      + reflexivity. }
+  destruct (d =? last)%Z; cbn [mbind app]; rewrite Hq; [apply (Hrest [])|].
+  apply (Hrest [assertion d acct cur b]).
+Qed.
+
+Lemma rv_rows_ok acct cur rows : forall last, forallb rv_wf_row rows = true ->
+  rv_rows acct cur last (map CRec rows) = MOk (rv_weave acct cur last rows (map (rv_txn acct cur) rows)).
+Proof.
+  induction rows as [|r rows IH]; intros last Hwf; [reflexivity|].
+  cbn [forallb] in Hwf. apply andb_prop in Hwf. destruct Hwf as [Hr Hrs].
+  cbn [map rv_rows rv_weave]. rewrite (rv_row acct cur last r Hr). cbn [mbind fst snd]. rewrite (IH _ Hrs). cbn [mbind].
+  unfold rv_step. rewrite <- app_assoc. reflexivity.
+Qed.
+
+Lemma span_letters cur rest : forallb is_alpha cur = true ->
+  span is_alpha (cur ++ 41%Z :: rest) = (cur, 41%Z :: rest).
+Proof.
+  induction cur as [|c cur IH]; intros H; [reflexivity|].
+  cbn [forallb] in H. apply andb_prop in H. destruct H as [Hc Hcur].
+  cbn [app span]. rewrite Hc, (IH Hcur). reflexivity.
+Qed.
+
+Lemma is_prefix_app p s : is_prefix p (p ++ s) = true.
+Proof. induction p as [|c p IH]; cbn [app is_prefix]; [destruct s; reflexivity|]. rewrite Z.eqb_refl. exact IH. Qed.
+
+Lemma rv_cur_ok cur : forallb is_alpha cur = true -> cur <> [] ->
+  rv_cur (s_paid_out ++ cur ++ [41%Z]) = Some cur.
+Proof.
+  intros Hl Hne. assert (H : rv_cur_here (s_paid_out ++ cur ++ [41%Z]) = Some cur).
+  { unfold rv_cur_here. rewrite is_prefix_app. rewrite skipn_app, skipn_all, Nat.sub_diag. cbn [app skipn].
+    rewrite span_letters by assumption. destruct cur; [contradiction|reflexivity]. }
+  destruct (s_paid_out ++ cur ++ [41%Z]); cbn [rv_cur]; rewrite H; reflexivity.
+Qed.
+
+Lemma rv_legs_effect acct cur r c :
+  acct <> tbd_account -> acct <> valuation_account_for acct ->
+  legs_effect acct c (rv_legs acct cur r) == expected (re_changes (rv_fact cur r)) c.
+Proof.
+  intros H1 H2. unfold rv_legs, rv_fact. cbn [re_changes].
+  destruct (rv_exchange r) as [[oc oq]|]; cbn [legs_effect expected fold_right fst snd]; unfold leg_effect; cbn [l_credit l_debit l_com l_qty].
+  - rewrite !(ind_other_acc (valuation_account_for acct) acct) by congruence.
+    unfold ind. acc_cases. destruct (str_eq_dec cur c); destruct (str_eq_dec oc c); ring.
+  - rewrite (ind_other_acc tbd_account acct) by congruence.
+    unfold ind. acc_cases. destruct (str_eq_dec cur c); ring.
+Qed.
+
+Theorem revolut_faithful acct cur header rows :
+  acct <> tbd_account -> acct <> valuation_account_for acct ->
+  len_is header 9 = true -> field header 2 = s_paid_out ++ cur ++ [41%Z] ->
+  forallb is_alpha cur = true -> cur <> [] ->
+  forallb rv_wf_row rows = true ->
+  exists ts,
+    import_revolut acct (CRec header :: map CRec rows) = MOk (rv_weave acct cur zero_date rows ts) /\
+    Forall2 (fun r t => books_b acct (rv_fact cur r) (rv_legs acct cur r) None t) rows ts /\
+    map t_desc ts = map build_desc (map rv_text rows).
+Proof.
+  intros H1 H2 Hl Hh Hc Hne Hwf. exists (map (rv_txn acct cur) rows). split; [|split].
+  - cbn [import_revolut]. unfold rv_header. rewrite Hl. cbn [negb]. unfold len_is in Hl.
+    do 9 (destruct header as [|? header]; [discriminate Hl|]). unfold field in Hh. cbn [nth] in Hh.
+    unfold fld_p, fld. cbn [nth_error]. rewrite Hh, (rv_cur_ok cur Hc Hne). cbn [mbind].
+    apply rv_rows_ok. exact Hwf.
+  - clear Hwf. induction rows as [|r rows IH]; cbn [map]; constructor; [|exact IH].
+    apply books_b_intro; [reflexivity|]. intros c. apply rv_legs_effect; assumption.
+  - rewrite !map_map. apply map_ext. reflexivity.
+Qed.
